@@ -25,6 +25,7 @@ fn main() {
     match mode {
         "node" => rt.block_on(node::run()),
         "perm" => perm::run(&args[2..]),
+        "perm-update" => perm::run_update(&args[2..]),
         "codec" => codec::run(&args[2..]),
         "codec-decode" => codec::decode(&args[2..]),
         "codec-mutate" => codec::mutate_run(&args[2..]),
